@@ -87,8 +87,8 @@ M = [
      "elif u <= 1 / (len(remaining_cands) - 1):", "elif u <= 1 / len(remaining_cands):", ["C17"]),
     ("tiebreak-sorted-not-random", "votekit/utils.py",
      "frozenset({c}) for c in random.sample(list(r_set), k=len(r_set))", "frozenset({c}) for c in sorted(r_set)", ["C17"]),
-    ("hash-order-leak", "votekit/utils.py",
-     "            tiebroken = tiebreak_set(s, profile, tiebreak)", "            tiebroken = tiebreak_set(s, profile, tiebreak)", []),
+    ("hash-order-instead-of-random-tiebreak", "votekit/utils.py",
+     "frozenset({c}) for c in random.sample(list(r_set), k=len(r_set))", "frozenset({c}) for c in list(r_set)", ["C08", "C17"]),
     ("interval-no-normalise-combine", "votekit/pref_interval.py",
      "            key: value * prop\n", "            key: value * prop * prop\n", ["C15", "C16"]),
     ("slate-bt-pdf-swapped", "votekit/ballot_generator.py",
